@@ -144,7 +144,8 @@ ExpireTime(d, a, unit) ==
     ELSE IF ExpOf(d, a[1]) = 0 THEN Res(d, RInt(-1))
     ELSE Res(d, RTime(ExpOf(d, a[1]), unit, "abs"))
 
-\* ---- SORT key [LIMIT off cnt] [ASC|DESC] [ALPHA]   (BY / GET / STORE: not modelled yet) ----
+\* ---- SORT key [BY pattern] [LIMIT off cnt] [GET pattern ...] [ASC|DESC] [ALPHA] [STORE dest] ----
+\* (patterns of the form key->field, which look into hashes, are not modelled)
 NumLess(x, y) == LET p == ParseI64(x) q == ParseI64(y) c == NumCmp(p.num, q.num)
                  IN  IF c # 0 THEN c < 0 ELSE BytesLess(x, y)
 SortedBy(S, less(_, _)) == SortSeq(S, less)
@@ -157,6 +158,9 @@ SortOpts(o, acc) ==
     ELSE IF Is(o[1], "ALPHA") THEN SortOpts(Tail(o), [acc EXCEPT !.alpha = TRUE])
     ELSE IF Is(o[1], "LIMIT") /\ Len(o) >= 3 /\ ArgInt(o[2]).ok /\ ArgInt(o[3]).ok
          THEN SortOpts(SubSeq(o, 4, Len(o)), [acc EXCEPT !.lim = TRUE, !.off = ArgInt(o[2]).v, !.cnt = ArgInt(o[3]).v])
+    ELSE IF Is(o[1], "BY") /\ Len(o) >= 2 THEN SortOpts(SubSeq(o, 3, Len(o)), [acc EXCEPT !.by = <<o[2]>>])
+    ELSE IF Is(o[1], "GET") /\ Len(o) >= 2 THEN SortOpts(SubSeq(o, 3, Len(o)), [acc EXCEPT !.gets = Append(@, o[2])])
+    ELSE IF Is(o[1], "STORE") /\ Len(o) >= 2 THEN SortOpts(SubSeq(o, 3, Len(o)), [acc EXCEPT !.store = <<o[2]>>])
     ELSE [acc EXCEPT !.ok = FALSE]
 
 LimitOf(s, o) ==
@@ -166,23 +170,45 @@ LimitOf(s, o) ==
         en2 == IF en >= n THEN n - 1 ELSE en
     IN  IF ~o.lim THEN s ELSE IF st >= n \/ st > en2 THEN <<>> ELSE SubSeq(s, st + 1, en2 + 1)
 
+\* the first * of a pattern replaced by the element; <<>> when the pattern has none
+HasStar(p) == \E i \in 1..Len(p) : p[i] = 42
+Subst(p, e) == LET i == CHOOSE i \in 1..Len(p) : p[i] = 42 /\ \A j \in 1..(i - 1) : p[j] # 42
+               IN  SubSeq(p, 1, i - 1) \o e \o SubSeq(p, i + 1, Len(p))
+\* the string stored under the key a pattern names for element e, as <<value>>, or <<>> (missing, not a string, no *)
+Lookup(d, p, e) == IF ~HasStar(p) THEN <<>>
+                   ELSE LET k == Subst(p, e) IN IF Has(d, k) /\ d[k].ty = "string" THEN <<d[k].s>> ELSE <<>>
+
 Sort(d, a) ==
     LET k == a[1]
-        o == SortOpts(Tail(a), [ok |-> TRUE, desc |-> FALSE, alpha |-> FALSE, lim |-> FALSE, off |-> 0, cnt |-> -1])
+        o == SortOpts(Tail(a), [ok |-> TRUE, desc |-> FALSE, alpha |-> FALSE, lim |-> FALSE, off |-> 0, cnt |-> -1, by |-> <<>>, gets |-> <<>>, store |-> <<>>])
         src == IF Ty(d, k) = "list" THEN d[k].l ELSE IF Ty(d, k) = "set" THEN SetToSeq(d[k].m) ELSE <<>>
-        numeric == \A i \in 1..Len(src) : ParseI64(src[i]).ok
-        asc == IF o.alpha THEN SortedBy(src, BytesLess) ELSE SortedBy(src, NumLess)
-        sorted == IF o.desc THEN Rev(asc) ELSE asc
+        nosort == o.by # <<>> /\ ~HasStar(o.by[1])
+        \* the sort key of an element: itself, or what the BY pattern names (a missing key counts as 0 / the empty string)
+        weight(e) == IF o.by = <<>> THEN e ELSE LET w == Lookup(d, o.by[1], e) IN IF w = <<>> THEN (IF o.alpha THEN <<>> ELSE <<48>>) ELSE w[1]
+        numeric == nosort \/ \A i \in 1..Len(src) : ParseI64(weight(src[i])).ok
+        wless(x, y) == IF o.alpha THEN (IF weight(x) # weight(y) THEN BytesLess(weight(x), weight(y)) ELSE BytesLess(x, y))
+                       ELSE LET c == NumCmp(ParseI64(weight(x)).num, ParseI64(weight(y)).num) IN IF c # 0 THEN c < 0 ELSE BytesLess(x, y)
+        asc == IF nosort THEN src ELSE SortedBy(src, wless)
+        sorted == IF o.desc /\ ~nosort THEN Rev(asc) ELSE asc
         ideal == LimitOf(sorted, o)
+        \* the reply: per element one value per GET pattern (# = the element itself)
+        getOne(e, p) == IF p = <<35>> THEN RBulk(e) ELSE LET v == Lookup(d, p, e) IN IF v = <<>> THEN RNil ELSE RBulk(v[1])
+        flat == IF o.gets = <<>> THEN [i \in 1..Len(ideal) |-> RBulk(ideal[i])]
+                ELSE [i \in 1..(Len(ideal) * Len(o.gets)) |-> getOne(ideal[((i - 1) \div Len(o.gets)) + 1], o.gets[((i - 1) % Len(o.gets)) + 1])]
+        \* STORE: the result becomes the list dest (a nil is stored as the empty string); an empty result deletes dest
+        stored == [i \in 1..Len(flat) |-> IF flat[i].t = "nil" THEN <<>> ELSE flat[i].s]
         \* the emulator only sorts when BY is given, and never applies LIMIT
         emuDv == (IF sorted # src \/ (~o.alpha /\ ~numeric) THEN {"D_SORT_WITHOUT_BY_DOES_NOT_SORT"} ELSE {})
                  \cup (IF o.lim /\ LimitOf(src, o) # src THEN {"D_SORT_LIMIT_IGNORED"} ELSE {})
-        emuOn == emuDv # {} /\ emuDv \subseteq devs
+        emuOn == emuDv # {} /\ emuDv \subseteq devs /\ o.by = <<>> /\ o.gets = <<>> /\ o.store = <<>>
     IN  IF Len(a) < 1 \/ ~o.ok THEN Fail(d, EArg)
         ELSE IF Ty(d, k) \in {"string", "hash"} THEN Fail(d, WT)
         ELSE IF Ty(d, k) = "set" /\ On("D_SORT_SET_PANICS") THEN ResD(d, [t |-> "dead"], "D_SORT_SET_PANICS")
         ELSE IF emuOn /\ (RBulks(src) # RBulks(ideal) \/ (~o.alpha /\ ~numeric)) THEN [Res(d, RBulks(src)) EXCEPT !.dv = emuDv]
         ELSE IF ~o.alpha /\ ~numeric THEN Fail(d, RErr("ERR"))
-        ELSE Res(d, RBulks(ideal))
+        ELSE IF o.store # <<>> THEN
+             (IF stored = <<>> THEN Res(Del(d, o.store[1]), RInt(0))
+              ELSE Res(Put(d, o.store[1], VList(stored, 0)), RInt(Len(stored))))
+        ELSE Res(d, RArr(flat))
 
 =============================================================================
